@@ -193,6 +193,36 @@ func init() {
 				upWB = lastAdd < write && write < exec
 			}
 		}
+		x.Comment("Upgrade8To10: before looking for a plan, an EMPTY new directory is removed (if fsutil.DirExists(new) { … fsutil.DirIsEmpty(new) … os.Remove(new) })")
+		var rmEmpty, rmFound bool
+		if fd := x.Func("snapshot", "", "Upgrade8To10"); fd != nil {
+			rmFound = true
+			for _, st := range fd.Body.List {
+				is, ok := st.(*ast.IfStmt)
+				if !ok {
+					continue
+				}
+				if x.Src(is.Cond) == "fsutil.FileExists(planPath)" {
+					break // reached the resume branch without having seen the removal
+				}
+				if x.Src(is.Cond) == "fsutil.DirExists(new)" {
+					empties, removes := false, false
+					for _, c := range x.Calls(is.Body, "DirIsEmpty") {
+						if len(c.Args) == 1 && x.Src(c.Args[0]) == "new" {
+							empties = true
+						}
+					}
+					for _, c := range x.Calls(is.Body, "Remove") {
+						if len(c.Args) == 1 && x.Src(c.Args[0]) == "new" {
+							removes = true
+						}
+					}
+					rmEmpty = empties && removes
+					break
+				}
+			}
+		}
+		x.DefOptBool("upgradeRemovesEmptyNewFirst", rmEmpty, rmFound)
 		x.Raw("def upgrade8To10 : List (String × String) := " + leanPairs(up))
 		x.DefOptBool("upgradeWriteBeforeExecute", upWB, upFound)
 
